@@ -80,7 +80,9 @@ def gen(rng, tier):
             "+p3/apikey/k3/0&+p4/rl/_/0&+p5/emtls/k4/0&+p6/imtls/k4/0&+v1/s1/0/pol=p6/tls=k5&+v2/s1/0/rpol=%s&+i1/s2/0/basic=k1&+i2/s1/0%s&+t1/s2/0")
     changes = ["+e1.0/s1/a+c", "-e1.0", "-e1.1", "+e2.0/s2/_", "-e2.0", "+s1/1", "-s1", "-s2", "+k1/htpasswd/1", "-k1", "+k2/jwk/1", "-k2", "+k3/apikey/1", "-k3",
                "+k4/ca/1", "-k4", "+k5/tls/1", "-k5", "+p1/basic/k1/1", "-p1", "+p2/jwt/k2/1", "-p2", "+p3/apikey/k3/1", "-p3", "+p4/rl/_/1", "-p4",
-               "+p5/emtls/k4/1", "-p5", "+p6/imtls/k4/1", "-p6", "+k1/bad/1"]
+               "+p5/emtls/k4/1", "-p5", "+p6/imtls/k4/1", "-p6", "+k1/bad/1",
+               # the Policy goes to another controller's class (the generation then drops it) and comes back
+               "+p1/basic/k1/0/cls=other", "+p3/apikey/k3/0/cls=other", "+p4/rl/_/0/cls=other", "+p5/emtls/k4/0/cls=other", "+p6/imtls/k4/0/cls=other"]
     for plus in (0, 1):
         for rpol in ["p1", "p3", "p4", "p5"] + (["p2"] if plus else []):
             b = base % (rpol, "/jwt=k2" if plus else "")
@@ -88,7 +90,7 @@ def gen(rng, tier):
                 if tier == "quick" and (len(ch) + len(rpol) + plus + ord(ch[2])) % 2:
                     continue
                 # the change alone, then undone / re-added, then inside a batch
-                redo = ch[1:] if ch.startswith("-") else None
+                redo = ch[1:] if ch.startswith("-") else (ch[1:].split("/")[0] if "/cls=other" in ch else None)
                 seq = [ch]
                 if redo:
                     orig = [t for t in b.split("&") if t.startswith("+" + redo + "/")]
